@@ -15,7 +15,7 @@ SlimStep(st) == [c |-> st.c,
                  req |-> Slim(st.req, [Req("") EXCEPT !.fid = -1]),
                  calls |-> [i \in 1..Len(st.calls) |-> SlimCall(st.calls[i])],
                  reply |-> st.reply, closes |-> st.closes, paths |-> st.paths,
-                 okerr |-> st.okerr, fen |-> st.fen]
+                 okerr |-> st.okerr, fen |-> st.fen, tree |-> st.tree]
 SlimSeq(sq) == [i \in 1..Len(sq) |-> SlimStep(sq[i])]
 
 \* With GEN_LAST set (simulation runs) only histories of full length are written.
